@@ -91,7 +91,7 @@ for pid in ids:
             'replay_cmd_template': f'./check {pid} --replay {{path}}',
             'engine': 'tlc+replay',
             'level_claimed': {'category': 'model_checking', 'text': c['text'], 'design_ref': c['sec']},
-            'level_note': c['note'],
+            'level_note': c['note'] + '; the seeded input families of the drivers were extended after seven rounds of independent seeded changes (DESIGN.md 9.5, 9.8; seeded/<id>/)',
             'technique': c['tech'],
         })
 claimed = {c['property_id'] for c in checks}
@@ -104,7 +104,7 @@ m = {
            'baseline_off_cmd': 'cd /repo && env -u OUTRANK_VERIF /venv/bin/python -m pytest -q -p no:cacheprovider --timeout=900 --continue-on-collection-errors',
            'source_commits': [], 'add_only': True},
  'engines': [{'name': 'tlc+replay', 'path': 'harness/engine.py', 'serves_properties': sorted(claimed),
-              'kind_free_text': 'TLC 1.8 model checking of spec/*.tla; replay of emitted states into the real code; trace validation of recorded executions'}],
+              'kind_free_text': 'TLC 1.8 model checking of spec/*.tla; replay of emitted states into the real code; trace validation of recorded executions; Apalache inductive invariant for the count-min machine (spec/apalache/)'}],
  'checks': checks,
  'not_applicable': na,
  'notes': 'Explicit TLA+ specifications in spec/, bound to /repo by replay and trace validation; see DESIGN.md. Exit 2 = machinery failure.',
